@@ -1,15 +1,77 @@
-import LhasaV.Spec.PmEnc
-import LhasaV.Model.Pm
+import LhasaV.Lemmas.PmRT
 /-!
 # C04 — PMarc pm1 and pm2 decode every valid stream exactly
+
+`Spec.PmEnc` states both stream formats as encoders of a structured description (`pm1Bits`,
+`pm2Bits`: `none` = the description is not well-formed) with the denotation of the commands
+(`pm1Expand`, `pm2Expand`); `Pm1`, `Pm2`, `Pma` are the decoder models of `pm1_decoder.c`,
+`pm2_decoder.c`, `pma_common.c` over tables regenerated from the compiled source.
 -/
 namespace LhasaV.Props.C04
-open LhasaV LhasaV.Spec.PmEnc
+open LhasaV LhasaV.Spec.PmEnc LhasaV.Spec.Lz77
 
-/-- The initial history list of `pma_common.c` (extracted from the compiled `init_history_list`)
-is the move-to-front order of the format: walking `prev` from the head visits `initOrder`. -/
+/-- The history linked list extracted from the compiled `init_history_list` is the move-to-front
+order of the format. -/
 theorem init_history_is_initOrder :
     (List.range 256).map (fun k => Pma.find Pma.initHist k) = initOrder.map (fun b => Res.ok b.toNat) := by
   decide +kernel
+
+/-- the format constants of the spec are the tables of the compiled source -/
+theorem tables_match_source :
+    Gen.pm2HistoryDecode = pm2ByteClasses ∧ Gen.pm1ByteRanges = pm1ByteClasses ∧
+    Gen.pm1CopyRanges = [(0, 6), (64, 8), (0, 6), (64, 9), (576, 11), (2624, 13), (64, 8), (576, 8), (576, 9),
+      (576, 10), (2624, 8), (2624, 9), (2624, 10), (2624, 11), (2624, 12)] :=
+  ⟨PmRT.pm2_classes_match, PmRT.pm1_classes_match, PmRT.pm1_copy_ranges_match⟩
+
+/-- **The history list refines move-to-front**: for EVERY sequence of output bytes the doubly linked
+list of `pma_common.c` is the move-to-front list of the format … -/
+theorem history_refines_mtf (bs : List UInt8) :
+    ∃ h', PmRT.updates Pma.initHist bs = .ok h' ∧ PmRT.HistRel h' (mtfMoves initOrder bs) :=
+  PmRT.updates_init bs
+
+/-- … and `find_in_history_list(count)` returns the byte at position `count` of it, in both walking
+directions (forward for `count < 128`, backward otherwise). -/
+theorem history_find (h : Pma.Hist) (l : List UInt8) (hr : PmRT.HistRel h l) (k : Nat) (hk : k < 256) :
+    Pma.find h k = .ok (l.getD k 0).toNat := PmRT.find_spec h l hr k hk
+
+/-- **The -pm2- rebuild schedule**: the tables are (re)read exactly when the output count reaches
+1024, 2048, 4096, 8192 and every further 4096 — whatever command produces that byte, also in the
+middle of a copy (`outputByte` is the per-byte step shared by literals and copies). -/
+theorem pm2_schedule (s : Pm2.St) (b : UInt8) (p : Nat) (hs : PmRT.Sched s p)
+    (hu : s.treeState ≠ .unbuilt) (s' : Pm2.St) (h : Pm2.outputByte s b = .ok s') :
+    PmRT.Sched s' (p + 1) ∧ (s.rebuildRemaining - 1 = 0 ↔ PmRT.RebuildPoint (p + 1)) :=
+  PmRT.outputByte_Sched s b p hs hu s' h
+
+/-- all 32 byte-class trees of -pm1- (rows of `byte_decode_trees`, from the compiled source) decode
+every path of the corresponding tree of the format to its class -/
+theorem pm1_trees_ok : ∀ t, t < 32 → PmRT.treeOk t = true := PmRT.trees_ok
+
+/-- **C04 for -pm1-, full statement.** For EVERY well-formed -pm1- description (any of the 32 start
+headers, byte blocks and copies of every count and range class at every output position, both
+paths of tree 17), any callback chunking, block size, read schedule and declared length up to the
+length of the expansion: reading through the decoder API yields exactly the expansion. (Beyond its
+input -pm1- decodes zero bits for ever by design, hence the bound on the declared length; the
+decoder's 32-bit output counter bounds the expansion by 4 GiB.) -/
+theorem pm1_decode_serialise (st : Stream1) (bits : List Bool) (h : pm1Bits st = some bits)
+    (hlt : (pm1Expand st).length < 4294967296) (c n b : Nat) (ks : List Nat)
+    (hn : n ≤ (pm1Expand st).length) :
+    (Wrap.reads (Dec.total Pm1.dec) ks
+        { inner := .ok (Pm1.init { data := (packBits bits).toArray, chunk := c }),
+          length := n, blockSize := b }).1.1
+      = (pm1Expand st).take (min ks.sum n) :=
+  PmRT.pm1_reads st bits h hlt c n b ks hn
+
+/-- **C04 for -pm2-, full statement.** For EVERY well-formed -pm2- description (commands of every
+class, code and offset tables in every transmitted form at every rebuild point, rebuilds falling
+inside copies), any chunking, block size, schedule and declared length up to the length of the
+expansion: exactly the expansion. (-pm2- has no end marker, so the declared length delimits the
+member: past it the zero padding would decode further.) -/
+theorem pm2_decode_serialise (st : Stream) (bits : List Bool) (h : pm2Bits st = some bits) (c n b : Nat)
+    (ks : List Nat) (hn : n ≤ (pm2Expand st).length) :
+    (Wrap.reads (Dec.total Pm2.dec) ks
+        { inner := .ok (Pm2.init { data := (packBits bits).toArray, chunk := c }),
+          length := n, blockSize := b }).1.1
+      = (pm2Expand st).take (min ks.sum n) :=
+  PmRT.pm2_reads st bits h c n b ks hn
 
 end LhasaV.Props.C04
